@@ -243,23 +243,62 @@ pub fn is_package_token(s: &str, path: bool) -> bool {
     }
 }
 
-/// Token-level observation of the real lexer: `kind:offset:len` items, and whether some token's
-/// text does not have the documented shape of its kind (an identifier/package token that does not
-/// match its pattern, or an "unexpected token" error covering more than one character): the
-/// lexer generator's handling of a partially matched repetition, see notes/C12.md.
-pub fn lex_obs(src: &str) -> Option<(Vec<String>, bool)> {
+const KEYWORD_TEXTS: &[&str] = &[
+    "import", "with", "type", "tuple", "list", "option", "result", "borrow", "resource", "variant", "record", "flags",
+    "enum", "func", "static", "constructor", "u8", "s8", "u16", "s16", "u32", "s32", "u64", "s64", "f32", "f64", "char",
+    "bool", "string", "interface", "world", "export", "new", "let", "use", "include", "as", "package", "targets",
+];
+
+/// does `text` contain a `-` that is not followed by a letter, or a `:` that is not followed by
+/// a letter or `%` (a separator of the identifier / package-name patterns with nothing after it)?
+fn has_dangling_separator(text: &str) -> bool {
+    let b = text.as_bytes();
+    for i in 0..b.len() {
+        let next = b.get(i + 1).copied();
+        if b[i] == b'-' && !next.map_or(false, |c| c.is_ascii_alphabetic()) {
+            // inside a version (after `@`) a `-` is an ordinary character
+            if !text[..i].contains('@') {
+                return true;
+            }
+        }
+        if b[i] == b':' && !next.map_or(false, |c| c.is_ascii_alphabetic() || c == b'%') {
+            return true;
+        }
+    }
+    false
+}
+
+/// Token-level observation of the real lexer: `kind:offset:len` items, and a shape tag naming
+/// the two known ways in which the generated lexer departs from longest match (notes/C12.md,
+/// known_findings.d/parser.json), recognised by symptom *and* input shape:
+///   `kw-colon`      an `Ident` token whose text is a keyword and which is directly followed by `:`
+///   `dangling-sep`  an identifier / package token whose text does not match its pattern and
+///                   contains a `-` or `:` with no word after it (`foo-`, `a:b:`, `a:b:/c`)
+///   `odd-token`     any other token whose text does not have the documented shape of its kind
+/// (`-` when none applies).
+pub fn lex_obs(src: &str) -> Option<(Vec<String>, String)> {
     let mut lx = Lexer::new(src).ok()?;
     let mut items = Vec::new();
-    let mut odd = false;
+    let (mut kw_colon, mut dangling, mut odd) = (false, false, false);
     while let Some((r, span)) = lx.next() {
         let text = &src[span.offset()..span.offset() + span.len()];
+        let next = src.as_bytes().get(span.offset() + span.len()).copied();
         match r {
             Ok(t) => {
-                match t {
-                    Token::Ident => odd |= !is_id(text),
-                    Token::PackageName => odd |= !is_package_token(text, false),
-                    Token::PackagePath => odd |= !is_package_token(text, true),
-                    _ => {}
+                let valid = match t {
+                    Token::Ident => is_id(text),
+                    Token::PackageName => is_package_token(text, false),
+                    Token::PackagePath => is_package_token(text, true),
+                    _ => true,
+                };
+                if !valid {
+                    if has_dangling_separator(text) {
+                        dangling = true;
+                    } else {
+                        odd = true;
+                    }
+                } else if t == Token::Ident && KEYWORD_TEXTS.contains(&text) && next == Some(b':') {
+                    kw_colon = true;
                 }
                 items.push(format!("{:?}:{}:{}", t, span.offset(), span.len()));
             }
@@ -271,5 +310,16 @@ pub fn lex_obs(src: &str) -> Option<(Vec<String>, bool)> {
             }
         }
     }
-    Some((items, odd))
+    let mut tags = Vec::new();
+    if kw_colon {
+        tags.push("kw-colon");
+    }
+    if dangling {
+        tags.push("dangling-sep");
+    }
+    if odd {
+        tags.push("odd-token");
+    }
+    let flag = if tags.is_empty() { "-".to_string() } else { format!("shape={}", tags.join(",")) };
+    Some((items, flag))
 }
